@@ -233,14 +233,39 @@ func impliedByPredicate(f Fact, depth int) []Fact {
 	}
 	want := f.R.Name == "true"
 	t := f.L
-	if t == nil || t.Op != "call" || t.Call == nil {
-		return nil
+	// a boolean built by && / || and tested later (switch cases, stored conditions): when only one
+	// incoming definition can produce the outcome, the facts on that edge and that definition's
+	// own outcome are implied
+	if t != nil && t.Op == "phi" {
+		if phi, ok := t.V.(*ssa.Phi); ok && isBoolType(phi.Type()) {
+			cand := -1
+			for i, e := range phi.Edges {
+				if k, isC := e.(*ssa.Const); isC && (constText(k) == "true") != want {
+					continue
+				}
+				if cand >= 0 {
+					return nil
+				}
+				cand = i
+			}
+			if cand < 0 {
+				return nil
+			}
+			ff := FactsFor(phi.Parent())
+			out := append([]Fact{}, ff.OnEdge(phi.Block().Preds[cand], phi.Block())...)
+			if _, isC := phi.Edges[cand].(*ssa.Const); !isC {
+				ef := FactOf(phi.Edges[cand], want)
+				out = append(out, ef)
+				out = append(out, impliedByPredicate(ef, depth+1)...)
+			}
+			for i := range out {
+				out[i].If, out[i].Succ = nil, 0
+			}
+			return out
+		}
 	}
-	g := t.Call.Call.StaticCallee()
-	if g == nil || g.Blocks == nil || g.Pkg == nil || !strings.HasPrefix(g.Pkg.Pkg.Path(), ModPath) {
-		return nil
-	}
-	if g.Signature.Results().Len() != 1 || !isBoolType(g.Signature.Results().At(0).Type()) {
+	g, resK, theCall, okP := predicateOf(t)
+	if !okP {
 		return nil
 	}
 	var common map[string]Fact
@@ -248,10 +273,10 @@ func impliedByPredicate(f Fact, depth int) []Fact {
 	for _, b := range g.Blocks {
 		for _, in := range b.Instrs {
 			ret, ok := in.(*ssa.Return)
-			if !ok || len(ret.Results) != 1 {
+			if !ok || len(ret.Results) <= resK {
 				continue
 			}
-			for _, lf := range Leaves(ret.Results[0], ret.Block()) {
+			for _, lf := range Leaves(Forwarded(ret.Results[resK]), ret.Block()) {
 				set := map[string]Fact{}
 				add := func(x Fact) { x.If, x.Succ = nil, 0; set[x.String()] = x }
 				if k, isC := lf.V.(*ssa.Const); isC {
@@ -286,7 +311,7 @@ func impliedByPredicate(f Fact, depth int) []Fact {
 	}
 	// parameters → arguments
 	sub := map[ssa.Value]*Term{}
-	args := t.Call.Call.Args
+	args := theCall.Call.Args
 	for i, pr := range g.Params {
 		if i < len(args) {
 			sub[pr] = TermOf(args[i])
@@ -298,6 +323,35 @@ func impliedByPredicate(f Fact, depth int) []Fact {
 	}
 	sort.Slice(out, func(i, j int) bool { return out[i].String() < out[j].String() })
 	return out
+}
+
+
+// predicateOf: when t is the (k-th) boolean result of a static call of a repository function,
+// returns that function, the result index and the call.
+func predicateOf(t *Term) (*ssa.Function, int, *ssa.Call, bool) {
+	if t == nil || t.Call == nil {
+		return nil, 0, nil, false
+	}
+	k := 0
+	switch t.Op {
+	case "call":
+	case "extract":
+		k = t.Idx
+	default:
+		return nil, 0, nil, false
+	}
+	g := t.Call.Call.StaticCallee()
+	if g == nil || g.Blocks == nil || g.Pkg == nil || !strings.HasPrefix(g.Pkg.Pkg.Path(), ModPath) {
+		return nil, 0, nil, false
+	}
+	res := g.Signature.Results()
+	if k >= res.Len() || !isBoolType(res.At(k).Type()) {
+		return nil, 0, nil, false
+	}
+	if t.Op == "call" && res.Len() != 1 {
+		return nil, 0, nil, false
+	}
+	return g, k, t.Call, true
 }
 
 func isBoolType(t types.Type) bool {
@@ -531,14 +585,8 @@ func predicateOnlyThrough(f Fact, m FactM, depth int) bool {
 		return false
 	}
 	want := f.R.Name == "true"
-	if f.L == nil || f.L.Op != "call" || f.L.Call == nil {
-		return false
-	}
-	g := f.L.Call.Call.StaticCallee()
-	if g == nil || g.Blocks == nil || g.Pkg == nil || !strings.HasPrefix(g.Pkg.Pkg.Path(), ModPath) {
-		return false
-	}
-	if g.Signature.Results().Len() != 1 || !isBoolType(g.Signature.Results().At(0).Type()) {
+	g, resK, _, okP := predicateOf(f.L)
+	if !okP {
 		return false
 	}
 	cut := func(b *ssa.BasicBlock, k int) bool { return edgeFactMatches(b, k, m, depth+1) }
@@ -584,10 +632,10 @@ func predicateOnlyThrough(f Fact, m FactM, depth int) bool {
 	for _, b := range g.Blocks {
 		for _, in := range b.Instrs {
 			ret, ok := in.(*ssa.Return)
-			if !ok || len(ret.Results) != 1 {
+			if !ok || len(ret.Results) <= resK {
 				continue
 			}
-			if !check(ret.Results[0], ret, map[*ssa.Phi]bool{}) {
+			if !check(Forwarded(ret.Results[resK]), ret, map[*ssa.Phi]bool{}) {
 				return false
 			}
 		}
@@ -1062,4 +1110,21 @@ func soleCallSubst(fn *ssa.Function) map[ssa.Value]*Term {
 		}
 	}
 	return sub
+}
+
+// TermUp renders v like TermOf and then rewrites parameters of functions that have exactly one
+// call site into that call's arguments, up to three levels: a value handed through an extracted
+// helper is described in the terms of the function the helper was extracted from.
+func TermUp(v ssa.Value, in *ssa.Function) *Term {
+	t := TermOf(v)
+	fn := in
+	for i := 0; i < 3 && fn != nil; i++ {
+		sub := soleCallSubst(fn)
+		if len(sub) == 0 {
+			break
+		}
+		t = SubstTerm(t, sub)
+		fn = theProgram.Callers(fn)[0].Caller
+	}
+	return t
 }
